@@ -898,6 +898,159 @@ fn serde_case(rng: &mut Rng) {
     }
 }
 
+async fn recycle_history(rng: &mut Rng) -> usize {
+    use deadpool_redis::redis::cmd;
+    let srv = resp::Server::start();
+    let max = 1 + rng.below(3);
+    let len = 4 + rng.below(14);
+    let pool = deadpool_redis::Config::from_url(format!("redis://127.0.0.1:{}", srv.port))
+        .builder()
+        .unwrap()
+        .max_size(max)
+        .runtime(Runtime::Tokio1)
+        .build()
+        .unwrap();
+    let tmo = deadpool_redis::Timeouts {
+        wait: Some(Duration::ZERO),
+        create: None,
+        recycle: Some(Duration::from_millis(60)),
+    };
+    println!("rp cfg max={max}");
+    println!("rpobs cfg ok");
+    let mut held: Vec<(deadpool_redis::Connection, usize)> = Vec::new();
+    let mut taken: Vec<(deadpool_redis::redis::aio::MultiplexedConnection, usize)> = Vec::new();
+    let mut hist: Vec<String> = Vec::new();
+    let show = |head: String| {
+        let st = pool.status();
+        println!("rpobs {head} size={} avail={} max={}", st.size, st.available, st.max_size);
+    };
+    for _ in 0..len {
+        let k = rng.below(100);
+        if held.is_empty() || (k < 45 && (held.len() < max || rng.chance(15))) {
+            // how many idle connections may be examined: script that many answers (mostly bad
+            // ones first, so that several connections are rejected in one get)
+            let avail = pool.status().available;
+            let mut toks: Vec<&str> = Vec::new();
+            for _ in 0..avail {
+                let t = match rng.below(100) {
+                    0..=44 => "right",
+                    45..=56 => "stale",
+                    57..=66 => "wrong",
+                    67..=76 => "error",
+                    77..=84 => "unwatcherr",
+                    85..=94 => "drop",
+                    _ => "silent",
+                };
+                toks.push(t);
+                if t == "right" {
+                    break;
+                }
+            }
+            println!("rp get {}", toks.join(" "));
+            let (before, pings_before): (Vec<usize>, usize) = {
+                let mut st = srv.state.lock().unwrap();
+                st.replies.clear();
+                for t in &toks {
+                    st.replies.push_back(match *t {
+                        "right" => resp::Reply::Echo(None),
+                        "stale" => resp::Reply::Echo(Some("<stale>".into())),
+                        "wrong" => resp::Reply::Echo(Some("zzz".into())),
+                        "error" => resp::Reply::Error,
+                        "unwatcherr" => resp::Reply::UnwatchError,
+                        "drop" => resp::Reply::Drop,
+                        _ => resp::Reply::Silent,
+                    });
+                }
+                (st.log.iter().map(|l| l.len()).collect(), 0)
+            };
+            let _ = pings_before;
+            let r = pool.timeout_get(&tmo).await;
+            // what the server saw during this get
+            let (pings, order_ok) = {
+                let st = srv.state.lock().unwrap();
+                let mut pings: Vec<(usize, String, usize)> = Vec::new();
+                let mut order_ok = true;
+                for (idx, l) in st.log.iter().enumerate() {
+                    let from = before.get(idx).copied().unwrap_or(0);
+                    for (j, c) in l.iter().enumerate().skip(from) {
+                        if c[0].eq_ignore_ascii_case("PING") {
+                            pings.push((idx, c.get(1).cloned().unwrap_or_default(), j));
+                            if j == 0 || !l[j - 1][0].eq_ignore_ascii_case("UNWATCH") {
+                                order_ok = false;
+                            }
+                        }
+                    }
+                }
+                // in the order the pings were numbered
+                pings.sort_by_key(|p| p.1.parse::<u64>().unwrap_or(u64::MAX));
+                (pings, order_ok)
+            };
+            let shown: Vec<String> = pings.iter().map(|(i, a, _)| format!("{i}:{a}")).collect();
+            // for the history: each ping with the answer that was scripted for it
+            let told: Vec<String> = pings
+                .iter()
+                .enumerate()
+                .map(|(k, (i, a, _))| format!("{i}:{a}:{}", toks.get(k).copied().unwrap_or("right")))
+                .collect();
+            if !order_ok {
+                println!("rpx order BAD: a PING was not directly preceded by UNWATCH on its connection");
+            }
+            match r {
+                Ok(mut c) => {
+                    let who: i64 = cmd("WHOAMI").query_async(&mut c).await.unwrap_or(-1);
+                    let watched = srv.state.lock().unwrap().watched.get(who as usize).copied().unwrap_or(false);
+                    hist.push(format!("get=ok:{who}[{}]", told.join(",")));
+                    show(format!("res=ok:{who} pings=[{}] watched={}", shown.join(","), watched as u8));
+                    held.push((c.into(), who as usize));
+                }
+                Err(e) => {
+                    let e = match e {
+                        deadpool_redis::PoolError::Timeout(deadpool::managed::TimeoutType::Wait) => "timeout_wait",
+                        deadpool_redis::PoolError::Timeout(deadpool::managed::TimeoutType::Create) => "timeout_create",
+                        deadpool_redis::PoolError::Timeout(deadpool::managed::TimeoutType::Recycle) => "timeout_recycle",
+                        deadpool_redis::PoolError::Backend(_) => "backend",
+                        deadpool_redis::PoolError::Closed => "closed",
+                        deadpool_redis::PoolError::NoRuntimeSpecified => "no_runtime",
+                        deadpool_redis::PoolError::PostCreateHook(_) => "post_create_hook",
+                    };
+                    hist.push(format!("get={e}[{}]", told.join(",")));
+                    show(format!("res={e} pings=[{}] watched=-", shown.join(",")));
+                }
+            }
+        } else if k < 65 {
+            let (c, who) = held.swap_remove(rng.below(held.len()));
+            println!("rp ret {who}");
+            hist.push(format!("ret {who}"));
+            drop(c);
+            show("done".into());
+        } else if k < 85 {
+            let idx = rng.below(held.len());
+            let who = held[idx].1;
+            println!("rp watch {who}");
+            hist.push(format!("watch {who}"));
+            let r: Result<(), _> = cmd("WATCH").arg("k").query_async(&mut held[idx].0).await;
+            if r.is_err() {
+                println!("rpx watch failed on a handed-out connection");
+            }
+            show("done".into());
+        } else {
+            let (c, who) = held.swap_remove(rng.below(held.len()));
+            println!("rp take {who}");
+            hist.push(format!("take {who}"));
+            let mut raw = deadpool_redis::Connection::take(c);
+            show("done".into());
+            // the taken connection stays usable and is the same connection
+            let again: i64 = cmd("WHOAMI").query_async(&mut raw).await.unwrap_or(-1);
+            if again != who as i64 {
+                println!("rpx taken connection is {again}, expected {who}");
+            }
+            taken.push((raw, who));
+        }
+        println!("rpx history {}", hist.join("; "));
+    }
+    len + 1
+}
+
 fn main() {
     let args: Vec<String> = std::env::args().collect();
     let get = |k: &str, d: u64| -> u64 {
@@ -927,9 +1080,201 @@ fn main() {
                 cfg_case(&mut rng, &net);
             }
         }
+        "recycle" => {
+            let rt = tokio::runtime::Builder::new_current_thread().enable_all().build().unwrap();
+            let mut done = 0usize;
+            while (done as u64) < cases {
+                done += rt.block_on(recycle_history(&mut rng));
+            }
+        }
+        "probe" => {
+            // exploratory: what does the client send, what does the pool do with each reply
+            let srv = resp::Server::start();
+            let rt = tokio::runtime::Builder::new_current_thread().enable_all().build().unwrap();
+            rt.block_on(async {
+                let cfg = deadpool_redis::Config::from_url(format!("redis://127.0.0.1:{}", srv.port));
+                let pool = cfg.builder().unwrap().max_size(2).runtime(Runtime::Tokio1)
+                    .recycle_timeout(Some(Duration::from_millis(100))).build().unwrap();
+                for r in [resp::Reply::Echo(None), resp::Reply::Echo(Some("zzz".into())), resp::Reply::Error,
+                          resp::Reply::UnwatchError, resp::Reply::Drop, resp::Reply::Silent, resp::Reply::Echo(None)] {
+                    srv.state.lock().unwrap().replies.push_back(r.clone());
+                    let c = pool.get().await;
+                    println!("reply {:?} -> get ok={} status={:?}", r, c.is_ok(), pool.status());
+                    drop(c);
+                }
+                let st = srv.state.lock().unwrap();
+                for (i, l) in st.log.iter().enumerate() {
+                    println!("conn {i}: {:?}", l);
+                }
+            });
+        }
         _ => {
             eprintln!("usage: h-redis diff|cfg --seed S --cases N");
             std::process::exit(2);
+        }
+    }
+}
+
+// ---------------------------------------------------------------------------------------------
+// recycle (C17): the standalone pool against a scripted RESP server
+// ---------------------------------------------------------------------------------------------
+
+pub mod resp {
+    use std::{
+        collections::VecDeque,
+        io::{Read, Write},
+        net::{TcpListener, TcpStream},
+        sync::{Arc, Mutex},
+    };
+
+    /// what the server answers to the next `PING <n>` it sees
+    #[derive(Clone, Debug, PartialEq)]
+    pub enum Reply {
+        /// echo this value (`None`: the value that was sent)
+        Echo(Option<String>),
+        Error,
+        /// `UNWATCH` is answered with an error, the `PING` correctly
+        UnwatchError,
+        /// hang up instead of answering
+        Drop,
+        /// never answer
+        Silent,
+    }
+
+    #[derive(Default)]
+    pub struct ServerState {
+        /// argument of the last `PING` seen on any connection
+        pub last_ping: Option<String>,
+        /// per connection (accept order): commands received, as words
+        pub log: Vec<Vec<Vec<String>>>,
+        pub watched: Vec<bool>,
+        pub replies: VecDeque<Reply>,
+    }
+
+    pub struct Server {
+        pub port: u16,
+        pub state: Arc<Mutex<ServerState>>,
+    }
+
+    fn read_line(s: &mut TcpStream) -> Option<String> {
+        let mut out = Vec::new();
+        let mut b = [0u8; 1];
+        loop {
+            match s.read(&mut b) {
+                Ok(1) => {
+                    out.push(b[0]);
+                    if out.ends_with(b"\r\n") {
+                        out.truncate(out.len() - 2);
+                        return String::from_utf8(out).ok();
+                    }
+                }
+                _ => return None,
+            }
+        }
+    }
+
+    fn read_command(s: &mut TcpStream) -> Option<Vec<String>> {
+        let head = read_line(s)?;
+        let n: usize = head.strip_prefix('*')?.parse().ok()?;
+        let mut words = Vec::new();
+        for _ in 0..n {
+            let len: usize = read_line(s)?.strip_prefix('$')?.parse().ok()?;
+            let mut buf = vec![0u8; len + 2];
+            s.read_exact(&mut buf).ok()?;
+            buf.truncate(len);
+            words.push(String::from_utf8_lossy(&buf).to_string());
+        }
+        Some(words)
+    }
+
+    fn serve(mut s: TcpStream, idx: usize, state: Arc<Mutex<ServerState>>) {
+        // an UNWATCH whose reply is decided by the PING that follows it in the pipeline
+        let mut unwatch_pending = false;
+        while let Some(cmd) = read_command(&mut s) {
+            let name = cmd[0].to_uppercase();
+            let mut st = state.lock().unwrap();
+            st.log[idx].push(cmd.clone());
+            let reply: Option<String> = match name.as_str() {
+                "WATCH" => {
+                    st.watched[idx] = true;
+                    Some("+OK\r\n".into())
+                }
+                "UNWATCH" => {
+                    st.watched[idx] = false;
+                    unwatch_pending = true;
+                    None
+                }
+                "PING" => {
+                    let arg = cmd.get(1).cloned().unwrap_or_default();
+                    let r = st.replies.pop_front().unwrap_or(Reply::Echo(None));
+                    // `stale`: the value of the previous ping on this pool
+                    let r = match r {
+                        Reply::Echo(Some(v)) if v == "<stale>" => Reply::Echo(Some(st.last_ping.clone().unwrap_or("x".into()))),
+                        r => r,
+                    };
+                    st.last_ping = Some(arg.clone());
+                    let unwatch = if std::mem::take(&mut unwatch_pending) {
+                        if r == Reply::UnwatchError { "-ERR scripted unwatch failure\r\n" } else { "+OK\r\n" }
+                    } else {
+                        ""
+                    };
+                    match r {
+                        Reply::Echo(v) => {
+                            let v = v.unwrap_or(arg);
+                            Some(format!("{unwatch}${}\r\n{v}\r\n", v.len()))
+                        }
+                        Reply::UnwatchError => Some(format!("{unwatch}${}\r\n{arg}\r\n", arg.len())),
+                        Reply::Error => Some(format!("{unwatch}-ERR scripted failure\r\n")),
+                        Reply::Drop => {
+                            drop(st);
+                            let _ = s.shutdown(std::net::Shutdown::Both);
+                            return;
+                        }
+                        Reply::Silent => {
+                            drop(st);
+                            // keep the socket open, never answer anything again
+                            let mut sink = [0u8; 256];
+                            while let Ok(n) = s.read(&mut sink) {
+                                if n == 0 {
+                                    break;
+                                }
+                            }
+                            return;
+                        }
+                    }
+                }
+                "WHOAMI" => Some(format!(":{idx}\r\n")),
+                "GET" => Some("$-1\r\n".into()),
+                _ => Some("+OK\r\n".into()),
+            };
+            drop(st);
+            if let Some(r) = reply {
+                if s.write_all(r.as_bytes()).is_err() {
+                    return;
+                }
+            }
+        }
+    }
+
+    impl Server {
+        pub fn start() -> Server {
+            let l = TcpListener::bind("127.0.0.1:0").unwrap();
+            let port = l.local_addr().unwrap().port();
+            let state: Arc<Mutex<ServerState>> = Arc::default();
+            let st = state.clone();
+            let _ = std::thread::spawn(move || {
+                for s in l.incoming().flatten() {
+                    let idx = {
+                        let mut g = st.lock().unwrap();
+                        g.log.push(Vec::new());
+                        g.watched.push(false);
+                        g.log.len() - 1
+                    };
+                    let st2 = st.clone();
+                    let _ = std::thread::spawn(move || serve(s, idx, st2));
+                }
+            });
+            Server { port, state }
         }
     }
 }
